@@ -50,8 +50,13 @@ func (r *Registry) Add(soyfile *ast.SoyFileNode) error {
 			continue
 		}
 		if _, exists := r.sourceByTemplateName[tn.Name]; exists {
+			// (the two files are named in a fixed order, whichever was added first)
+			var first, second = r.fileByTemplateName[tn.Name], soyfile.Name
+			if second < first {
+				first, second = second, first
+			}
 			return fmt.Errorf("template %v is defined more than once (%v and %v)",
-				tn.Name, r.fileByTemplateName[tn.Name], soyfile.Name)
+				tn.Name, first, second)
 		}
 
 		// Technically every template requires soydoc, but having to add empty
